@@ -10,6 +10,9 @@ Fixpoint acks_eqb (a b : list ack) : bool := match a, b with [] , [] => true | x
 Fixpoint reqs_eqb (a b : list (list ack)) : bool := match a, b with [], [] => true | x :: a', y :: b' => acks_eqb x y && reqs_eqb a' b' | _, _ => false end.
 Definition fate_code (f : fate) : nat := match f with Republished => 0 | Recreated _ => 1 | Lost => 2 | Untouched => 3 end.
 Definition chk_acks (h : list publish_resp) (obs : list (list ack)) : bool := reqs_eqb (requests [] h) obs.
+Fixpoint nats_eqb (a b : list nat) : bool := match a, b with [], [] => true | x :: a', y :: b' => (x =? y) && nats_eqb a' b' | _, _ => false end.
+Definition chk_items (p : path) (e : sub_env) (groups reqs : list nat) : bool :=
+  nats_eqb (fst (rounds_items (List.length reqs) p e groups)) reqs.
 Definition chk_reconnect (p : path) (e : sub_env) (alive recreated resumed : bool) : bool :=
   let '(fs, _) := reconnect_subs p [e] in
   match fs with
@@ -27,7 +30,7 @@ def acks_term(al):
 
 
 def run(ctx):
-    n = 90 if ctx.thorough() else 21
+    n = 90 if ctx.thorough() else 23
     proof_ok, detail = True, {}
     r = ctx.props()
     if not r["ok"]:
@@ -60,7 +63,7 @@ def run(ctx):
         seen.add(key)
         c = dict(o["case"])
         c.pop("url", None)
-        if ctx.finding(key, what, {"case": c, "observed": {k: o.get(k) for k in ("acks", "states", "subs", "pubs_after", "values", "errors", "republished", "creates", "err", "panic")},
+        if ctx.finding(key, what, {"case": c, "observed": {k: o.get(k) for k in ("acks", "states", "subs", "pubs_after", "values", "errors", "republished", "creates", "items_round", "err", "panic")},
                                    "how": "work/bin/clientharness c26 -replay <this file>: scripted server; kind acks = publish history in case.l (5 ints per response), kind reconnect = scripted ActivateSession/Transfer/Republish/CreateSubscription/CreateMonitoredItems outcomes in case.p"}):
             new += 1
 
@@ -111,8 +114,19 @@ def run(ctx):
             path = "SessionKept" if p.get("session_lost", 0) == 0 else "(SessionLost %s)" % b(p.get("transfer_failed", 0) == 1)
             env = "{| se_id := 1; se_items := 2; se_transfer_ok := %s; se_republish_ok := %s; se_create_ok := %s; se_items_ok := %s |}" % (
                 b(p.get("transfer_ok", 0)), b(p.get("republish_ok", 0)), b(p.get("create_ok", 0)), b(p.get("items_ok", 0)))
-            lines_r.append("(%s, %s, (%s, %s, %s))" % (path, env, b(alive), b(recreated), b(resumed)))
+            groups = [2, 1, 1][:max(1, p.get("groups", 1))]
+            reqs = o.get("items_round") or []
+            # a failing CreateMonitoredItems stops at the first group, in map order: not comparable with several groups
+            if p.get("items_ok", 0) == 0 and len(groups) > 1:
+                reqs = []
+            lines_r.append("(%s, %s, (%s, %s, %s), ([%s], [%s]))" % (path, env, b(alive), b(recreated), b(resumed),
+                           ";".join(str(x) for x in groups), ";".join(str(x) for x in reqs)))
             obs_r.append(o)
+            # the property itself: a reconnect that recreates the subscription asks for ALL of its items, every time
+            if p.get("create_ok", 0) == 1 and p.get("items_ok", 0) == 1:
+                for k, q in enumerate(o.get("items_round") or []):
+                    if q not in (0, sum(groups)):
+                        report("items-lost-on-recreate", "reconnect %d recreated the subscription with %d of its %d monitored items (%d TimestampsToReturn groups)" % (k + 1, q, sum(groups), len(groups)), o)
             if not connected:
                 report("reconnect-failed", "the client did not report Connected after the scripted reconnect: states %s" % o["states"], o)
                 continue
@@ -135,8 +149,8 @@ def run(ctx):
             corr_ok = False
             detail["cases_acks"] = clog
         mism += [obs_a[i] for i in idx]
-        okc, idx, clog = ctx.eval_cases(IMPORTS, "path * sub_env * (bool * bool * bool)", lines_r,
-                                        "  let '(p, e, (a, rc, rs)) := c in chk_reconnect p e a rc rs", name="CasesR")
+        okc, idx, clog = ctx.eval_cases(IMPORTS, "path * sub_env * (bool * bool * bool) * (list nat * list nat)", lines_r,
+                                        "  let '(p, e, (a, rc, rs), (gs, reqs)) := c in chk_reconnect p e a rc rs && chk_items p e gs reqs", name="CasesR")
         if not okc:
             corr_ok = False
             detail["cases_reconnect"] = clog
@@ -153,7 +167,7 @@ def run(ctx):
     ctx.coverage.update({
         "evaluations": len(obs),
         "distinct_nontrivial": len({json.dumps([o["case"].get("l"), o["case"].get("p")]) for o in obs}),
-        "rule": "two of three cases: publish histories of 2..7 responses over subscriptions {1, 2, unknown 77}, data or keep-alive, per-acknowledgement statuses {OK, SubscriptionIDInvalid, SequenceNumberUnknown, other}, 1/8 with a result count off by one; one of three: reconnect scenarios over {session kept/lost} x {transfer unsupported/ok/invalid} x {republish ok/fails, with or without a retransmitted message} x {CreateSubscription ok/fails} x {CreateMonitoredItems ok/fails}; plus the three known-finding scenarios; distinct = distinct histories / scenarios",
+        "rule": "two of three cases: publish histories of 2..7 responses over subscriptions {1, 2, unknown 77}, data or keep-alive, per-acknowledgement statuses {OK, SubscriptionIDInvalid, SequenceNumberUnknown, other}, 1/8 with a result count off by one; one of three: reconnect scenarios over {session kept/lost} x {transfer unsupported/ok/invalid} x {republish ok/fails, with or without a retransmitted message} x {CreateSubscription ok/fails} x {CreateMonitoredItems ok/fails} x {1..3 TimestampsToReturn groups of items} x {1, 2 consecutive reconnects}; plus the three known-finding scenarios; distinct = distinct histories / scenarios",
         "samples": [{k: o.get(k) for k in ("case", "acks", "states", "subs", "pubs_after")} for o in obs[:4] + obs[-2:]],
         "ack_histories": len(lines_a), "reconnect_scenarios": len(lines_r),
         "traces_validated_against_impl": len(lines_a) + len(lines_r),
@@ -161,6 +175,6 @@ def run(ctx):
     })
     ctx.assumptions += [
         "the acknowledgement model is hand-transcribed (no translated part): it is compared EXACTLY with the acknowledgement lists of every PublishRequest the scripted server receives",
-        "one subscription with two items in the reconnect scenarios; republish sends at most one retransmitted message (the client sleeps one second between republish requests)",
+        "one subscription with 2..4 items in 1..3 TimestampsToReturn groups, one or two consecutive reconnects; republish sends at most one retransmitted message (the client sleeps one second between republish requests)",
     ]
     ctx.conclude(proof_ok, corr_ok, new, detail)
